@@ -162,9 +162,9 @@ CLAIMS = {
              "of the same module (E2) from symbolic arguments with the same external stubs and asserts equal results and call logs.  Corpus: one "
              "function per non-control opcode and compare-branch, memory operand forms, data sections of every element type, calls, overflow insns, "
              "immediates on a boundary grid.",
-        note="KNOWN FINDINGS (known-findings.txt): mir2c has no translation of `switch`, refuses expr data, passes block arguments by reference.  "
+        note="KNOWN FINDINGS (known-findings.txt): mir2c refuses expr data and passes block arguments by reference.  "
              "Repaired in /repo during the build: infinite immediates, ubo/ubno flag, references to one-element data / ref data items, data sections with unnamed "
-             "followers, uge, ldmov, section loop, alloca include.  "
+             "followers, switch, uge, ldmov, section loop, alloca include.  "
              "Excluded: multi-result functions (property), va_*, jcall/jret, laddr/jmpi, property insns, lref.  mul/div/mod, fmul/fdiv and double/long "
              "double arithmetic on constant grids; long double = binary128 on both legs; C-level UB of the emitted C evaluated as -fwrapv.",
         technique=TECH + "; emitted C compiled by goto-cc and compared with the real interpreter"),
